@@ -148,7 +148,7 @@ pub fn run_scripted(container: &[u8], script: &Script) -> IoRun {
     let mut w = SWriter { out: Vec::new(), sh: &sh };
     let res = guarded(|| recreated_zlib_chunks(&mut r, &mut w));
     let result = match res {
-        Ok(Ok(())) => "ok".to_string(),
+        Ok(Ok(_)) => "ok".to_string(),
         Ok(Err(_)) => "err".to_string(),
         Err(p) => format!("panic: {}", p),
     };
@@ -841,7 +841,7 @@ pub fn conc_record(args: &Args) -> i32 {
             1 => {
                 let c = expand_zlib_chunks(&files[x], 0).unwrap_or_default();
                 let mut o = Vec::new();
-                match recreated_zlib_chunks(&mut std::io::Cursor::new(&c), &mut o) { Ok(()) => fnv(&o), Err(_) => 2 }
+                match recreated_zlib_chunks(&mut std::io::Cursor::new(&c), &mut o) { Ok(_) => fnv(&o), Err(_) => 2 }
             }
             2 => match decompress_deflate_stream(&streams[x], x % 2 == 0, 0) {
                 Ok(r) => fnv(&r.plain_text) ^ fnv(&r.prediction_corrections).rotate_left(17) ^ r.compressed_size as u64,
